@@ -20,6 +20,11 @@ ACT = r"^radicle::cob::patch::Patch::action$"
 
 
 def run(ctx):
+    _run(ctx)
+    ancestry_primitive(ctx)
+
+
+def _run(ctx):
     db = ctx.db
     ctx.explanation = (
         "Decides structurally: one merge per actor by type; non-delegate merges denied; merges.insert dominated by the "
@@ -278,3 +283,31 @@ def run(ctx):
     rules.who(ctx, "who:State::Merged", "construction of State::Merged", sites,
               [ACT, r"^<radicle::cob::patch::State as core::clone::Clone>::clone$", r"serde::de::", r"Deserialize", r"Visitor"])
     ctx.floor("who:State::Merged", len(sites), 1, "State::Merged constructions")
+
+
+def ancestry_primitive(ctx):
+    """`is_ancestor_of(commit, head)` — the test a recorded merge has to pass — is libgit2's descendant test with the
+    operands in the right order (or an equivalent merge-base comparison)."""
+    db = ctx.db
+    fn = db.one(r"^<radicle::storage::git::Repository as radicle::storage::ReadRepository>::is_ancestor_of$")
+    if fn is None:
+        ctx.violated("anchor:is_ancestor_of", "Repository::is_ancestor_of not found (anchor missing)")
+        return
+    calls = [(bb, t, c.get("n") or c.get("dn") or "") for bb, t, c in db.calls(fn)]
+    desc = [(bb, t) for bb, t, n in calls if n.endswith("Repository::graph_descendant_of")]
+    mb = [(bb, t) for bb, t, n in calls if n.endswith("Repository::merge_base")]
+    wrong = [n for bb, t, n in calls if re.search(r"graph_ahead_behind$|revwalk|Repository::find_commit$", n)]
+    if desc:
+        bb, t = desc[0]
+        a = nshow(peel_calls(expr_operand(fn, t[2][1])))
+        b = nshow(peel_calls(expr_operand(fn, t[2][2])))
+        ctx.check("flow:is_ancestor_of", (a, b) == ("arg3", "arg2"),
+                  "is_ancestor_of(ancestor, head) asks libgit2 whether `head` descends from `ancestor` (graph_descendant_of(%s, %s))" % (a, b), rules.where(fn, bb), fn=fn)
+    elif mb and not wrong:
+        ctx.ob("flow:is_ancestor_of", "inconclusive", "is_ancestor_of is computed from a merge base; the comparison is not interpreted here", rules.where(fn), fn=fn)
+    elif wrong:
+        ctx.violated("flow:is_ancestor_of",
+                     "is_ancestor_of is computed with %s, which is not an ancestry test: two diverged commits are both `ahead` of each other, so a merge of a "
+                     "commit that is not on the delegate's branch is counted" % cfg.short(wrong[0]), rules.where(fn), fn=fn)
+    else:
+        ctx.ob("flow:is_ancestor_of", "inconclusive", "is_ancestor_of does not use a primitive this rule knows", rules.where(fn), fn=fn)
